@@ -50,6 +50,13 @@ func nilAfterErrorSites(v *FnView) []string {
 			switch obj.Type().Underlying().(type) {
 			case *types.Pointer, *types.Map, *types.Interface:
 			default:
+				// sdkmath.Int / LegacyDec (or a struct carrying one): the zero value wraps a nil *big.Int and every
+				// method but IsNil dereferences it
+				if hasMathValue(obj.Type()) && v.W.zeroOnError(v, call, idxOf(as.Lhs, l)) {
+					if use := v.mathUseAfterError(as, call, obj, errLhs); use != nil {
+						out = append(out, fmt.Sprintf("%s %s %s := %s; error %s; zero sdkmath value used at %s", v.pos(as), funcID(v.Obj), id.Name, exprString(call.Fun), kind, v.pos(use)))
+					}
+				}
 				continue
 			}
 			// dereference after the assignment
@@ -195,6 +202,7 @@ func init() { register("C11", runC11) }
 
 // audited nil-after-error sites (function|variable): reason.
 var nilAfterAudit = map[string]string{
+	"x/avs/keeper.EpochsHooksWrapper.AfterEpochEnd|power": "GetOperatorOptedUSDValue fails only for an operator that is opted in and has no value record; OptIn creates the record (InitOperatorUSDValue) before it marks the operator opted in and OptOut deletes it together with the opted-in mark (C05.R6 obligations), the only other deleter (DeleteAllOperatorsUSDValueForAVS) sits behind a nil/failed asset set, which GetAVSSupportedAssets never produces for a registered AVS (C05.R3 never-nil); a deregistered AVS gives avsAddr \"\", for which IsOptedIn is false and zeros are returned",
 	"x/feedistribution/keeper.Keeper.AllocateTokensToValidator|ops": "the validator's operator address comes from the operator registry (reverse lookup -> ValidatorByConsAddrForChainID) and operator records are never deleted, so OperatorInfo cannot miss",
 	"x/oracle.AppModule.EndBlock|pubKey":                            "the protobuf public key is the one dogfood stored in its own ValidatorUpdates this block (built by ToTmProtoKey)",
 }
@@ -233,13 +241,15 @@ func runC11(r *Run) {
 	r.rule("C11.R8", "no write to an entry of a nil map: map fields of the repository's structs that are written by index are initialised at every construction site (or by the writer itself); an inner map is created under a presence test before it is written", 8)
 	c11MapFields(r)
 	c11NestedMapWrites(r)
+	r.rule("C11.R9", "a dogfood parameter update cannot store a zero maximum validator count, unbonding period or history size (zero validators = an empty validator set, which CometBFT refuses): a submitted zero is replaced by the stored value before SetParams, and genesis validation rejects zero", 6)
+	c11DogfoodParams(r)
 	c11Bounds(r)
 	if r.Prop == "C11" {
 		sub := NewRun(r.W, "C17", r.Tier, r.Seed)
 		runC17(sub)
 		n := 0
 		for _, o := range sub.Obs {
-			if o.Rule != "C17.R3" && o.Rule != "C17.R4" {
+			if o.Rule != "C17.R3" && o.Rule != "C17.R4" && o.Rule != "C17.R6" {
 				continue
 			}
 			n++
@@ -619,4 +629,266 @@ func (v *FnView) exhaustiveTypeSwitchDefault(c *ast.CallExpr) bool {
 		}
 	}
 	return n > 0
+}
+
+func c11DogfoodParams(r *Run) {
+	w := r.W
+	fields := []string{"EpochsUntilUnbonded", "MaxValidators", "HistoricalEntries"}
+	uv := w.View("x/dogfood/keeper", "Keeper.UpdateParams")
+	if uv == nil {
+		r.bad("C11.R9", "anchor|UpdateParams", "-", "anchor", "x/dogfood/keeper.Keeper.UpdateParams not found")
+	} else {
+		r.saw(uv.ID())
+		var sets []*ast.CallExpr
+		for _, c := range uv.CallsNamed("SetParams") {
+			sets = append(sets, c)
+		}
+		var stored types.Object
+		if len(sets) == 1 && len(sets[0].Args) == 2 {
+			stored = uv.objOf(sets[0].Args[1])
+		}
+		r.check(stored != nil, "C11.R9", "update|single-store", uv.pos(uv.Decl), "one SetParams call stores a local params value", "UpdateParams does not store a single local params value")
+		for _, f := range fields {
+			ok := false
+			if stored != nil {
+				for _, st := range uv.Decl.Body.List {
+					ifs, isIf := st.(*ast.IfStmt)
+					if !isIf || ifs.Pos() > sets[0].Pos() || ifs.Else != nil {
+						continue
+					}
+					// body: stored.F = <previous>.F where <previous> comes from the store
+					assigns := false
+					for _, b := range ifs.Body.List {
+						as, isAs := b.(*ast.AssignStmt)
+						if !isAs || len(as.Lhs) != 1 || len(as.Rhs) != 1 {
+							continue
+						}
+						l, lok := stripParens(as.Lhs[0]).(*ast.SelectorExpr)
+						rr, rok := stripParens(as.Rhs[0]).(*ast.SelectorExpr)
+						if lok && rok && l.Sel.Name == f && rr.Sel.Name == f && uv.objOf(l.X) == stored && resolvesToCallV(uv, rr.X, "GetDogfoodParams") {
+							assigns = true
+						}
+					}
+					if !assigns {
+						continue
+					}
+					// condition: exactly "the submitted value of this field is zero"
+					var fs []Fact
+					decompose(ifs.Cond, true, ifs, &fs)
+					if len(fs) != 1 {
+						continue
+					}
+					for _, ft := range mirrorFacts(uv.expandBoolAliases(fs)) {
+						c, isC := factCmp(ft)
+						if !isC || c.Op != "==" || exprString(c.R) != "0" {
+							continue
+						}
+						if sel, isSel := stripParens(c.L).(*ast.SelectorExpr); isSel && sel.Sel.Name == f && uv.objOf(sel.X) == stored {
+							ok = true
+						}
+					}
+				}
+			}
+			r.check(ok, "C11.R9", "update|zero-keeps-previous|"+f, uv.pos(uv.Decl), "a submitted "+f+" of zero is replaced by the stored value before the params are written", "UpdateParams can store "+f+" = 0: the override is missing or tests something other than the submitted value (MaxValidators = 0 makes the next epoch end remove every validator, which CometBFT refuses)")
+		}
+	}
+	if pv := w.View("x/dogfood/types", "Params.Validate"); pv == nil {
+		r.bad("C11.R9", "anchor|Params.Validate", "-", "anchor", "x/dogfood/types.Params.Validate not found")
+	} else {
+		recv := ""
+		if pv.Decl.Recv != nil && len(pv.Decl.Recv.List) == 1 && len(pv.Decl.Recv.List[0].Names) == 1 {
+			recv = pv.Decl.Recv.List[0].Names[0].Name
+		}
+		for _, f := range fields {
+			ok := false
+			for _, c := range pv.CallsNamed("ValidatePositiveUint32") {
+				if len(c.Args) == 1 && exprString(c.Args[0]) == recv+"."+f {
+					if k, _ := pv.failArm(c); k == "return" {
+						ok = true
+					}
+				}
+			}
+			r.check(ok, "C11.R9", "genesis|positive|"+f, pv.pos(pv.Decl), "genesis validation rejects "+f+" = 0", "Params.Validate does not reject a zero "+f)
+		}
+	}
+}
+
+func idxOf(list []ast.Expr, e ast.Expr) int {
+	for i, x := range list {
+		if x == e {
+			return i
+		}
+	}
+	return -1
+}
+
+func isMathNamed(t types.Type) bool {
+	n, ok := t.(*types.Named)
+	if !ok || n.Obj().Pkg() == nil {
+		return false
+	}
+	p := n.Obj().Pkg().Path()
+	return (p == "cosmossdk.io/math" || strings.HasSuffix(p, "cosmos-sdk/types")) && (n.Obj().Name() == "Int" || n.Obj().Name() == "LegacyDec" || n.Obj().Name() == "Dec" || n.Obj().Name() == "Uint")
+}
+
+// hasMathValue: t is sdkmath.Int / LegacyDec by value, or a struct with such a field (by value).
+func hasMathValue(t types.Type) bool {
+	if isMathNamed(t) {
+		return true
+	}
+	if st, ok := t.Underlying().(*types.Struct); ok {
+		for i := 0; i < st.NumFields(); i++ {
+			if isMathNamed(st.Field(i).Type()) {
+				return true
+			}
+		}
+	}
+	return false
+}
+
+// zeroOnError: some implementation of the called function returns the zero value (T{} or an unassigned
+// variable) in result position idx together with a non-nil error.
+func (w *World) zeroOnError(v *FnView, call *ast.CallExpr, idx int) bool {
+	if idx < 0 {
+		return false
+	}
+	name := ""
+	switch f := call.Fun.(type) {
+	case *ast.SelectorExpr:
+		name = f.Sel.Name
+	case *ast.Ident:
+		name = f.Name
+	}
+	if name == "" {
+		return false
+	}
+	var cands []*FnView
+	if fo := v.callee(call); fo != nil && w.declOf[fo] != nil {
+		if cv := w.ViewOf(fo); cv != nil {
+			cands = append(cands, cv)
+		}
+	} else {
+		for _, cv := range w.allViews() {
+			if cv.Decl.Name.Name == name && cv.Decl.Recv != nil && inScopeFile(w.relFile(cv.Decl.Pos())) {
+				cands = append(cands, cv)
+			}
+		}
+	}
+	for _, cv := range cands {
+		zero := false
+		ast.Inspect(cv.Decl.Body, func(n ast.Node) bool {
+			if _, isLit := n.(*ast.FuncLit); isLit {
+				return false
+			}
+			rs, ok := n.(*ast.ReturnStmt)
+			if !ok || len(rs.Results) <= idx || !returnsErr(cv, rs) {
+				return true
+			}
+			switch x := stripParens(rs.Results[idx]).(type) {
+			case *ast.CompositeLit:
+				if len(x.Elts) == 0 {
+					zero = true
+				}
+			case *ast.Ident:
+				if o := cv.objOf(x); o != nil && len(cv.defsOf(o)) == 0 && !isParamObj(cv, o) {
+					zero = true
+				}
+			}
+			return true
+		})
+		if zero {
+			return true
+		}
+	}
+	return false
+}
+
+// mathUseAfterError: the first use of obj (or of a math-typed field of it) as a method receiver other than
+// IsNil, or as an argument of a method of a math value, that is reachable from the assignment without the
+// error having been found nil.
+func (v *FnView) mathUseAfterError(as *ast.AssignStmt, call *ast.CallExpr, obj types.Object, errID *ast.Ident) ast.Node {
+	errObj := v.Info.ObjectOf(errID)
+	var use ast.Node
+	refers := func(e ast.Expr) bool {
+		e = stripParens(e)
+		if sel, ok := e.(*ast.SelectorExpr); ok && isMathNamed(v.Info.TypeOf(sel)) {
+			e = stripParens(sel.X)
+		}
+		id, ok := e.(*ast.Ident)
+		return ok && v.Info.ObjectOf(id) == obj && isMathOrHolder(v.Info.TypeOf(e))
+	}
+	ast.Inspect(v.Decl.Body, func(n ast.Node) bool {
+		if use != nil {
+			return false
+		}
+		c, ok := n.(*ast.CallExpr)
+		if !ok || c.Pos() < as.End() || !v.reaches(as, c) {
+			return true
+		}
+		sel, isSel := c.Fun.(*ast.SelectorExpr)
+		if !isSel || !isMathNamed(v.Info.TypeOf(sel.X)) || sel.Sel.Name == "IsNil" {
+			return true
+		}
+		hit := refers(sel.X)
+		for _, a := range c.Args {
+			if refers(a) {
+				hit = true
+			}
+		}
+		if !hit {
+			return true
+		}
+		if v.replacedOnFailure(as, call, obj, c) {
+			return true
+		}
+		if errObj != nil && errID.Name != "_" {
+			// the fact must be about THIS call having succeeded (a stale `err == nil` of an earlier call that used
+			// the same variable does not count)
+			for _, f := range v.FactsAt(c, false) {
+				if o := v.outcome(f); o != nil && o.Call == call && o.Success {
+					return true
+				}
+			}
+		}
+		use = c
+		return false
+	})
+	return use
+}
+
+func isMathOrHolder(t types.Type) bool { return t != nil && hasMathValue(t) }
+
+// replacedOnFailure: between the assignment and the use there is a statement `if <call failed> { obj = <call> }`
+// in a block that encloses the use: on the failure path the zero value has been replaced by a constructed one.
+func (v *FnView) replacedOnFailure(as *ast.AssignStmt, call *ast.CallExpr, obj types.Object, use ast.Node) bool {
+	found := false
+	ast.Inspect(v.Decl.Body, func(n ast.Node) bool {
+		ifs, ok := n.(*ast.IfStmt)
+		if !ok || found || ifs.Pos() < as.End() || ifs.End() > use.Pos() || ifs.Else != nil {
+			return true
+		}
+		blk, isBlk := v.parent(ifs).(*ast.BlockStmt)
+		if !isBlk || !(blk.Pos() <= use.Pos() && use.End() <= blk.End()) {
+			return true
+		}
+		var fs []Fact
+		decompose(ifs.Cond, true, ifs, &fs)
+		if len(fs) != 1 {
+			return true
+		}
+		if o := v.outcome(fs[0]); o == nil || o.Call != call || o.Success {
+			return true
+		}
+		for _, st := range ifs.Body.List {
+			a, isAs := st.(*ast.AssignStmt)
+			if !isAs || a.Tok != token.ASSIGN || len(a.Lhs) != 1 || len(a.Rhs) != 1 || v.objOf(a.Lhs[0]) != obj {
+				continue
+			}
+			if _, isCall := stripParens(a.Rhs[0]).(*ast.CallExpr); isCall {
+				found = true
+			}
+		}
+		return true
+	})
+	return found
 }
